@@ -12,7 +12,7 @@ QUICK_LIMITS = (None, 3)
 THOROUGH_LIMITS = (None, 1, 2, 3, 8, 64, 2048)
 
 
-def check_gate(chk, prog, eff, L, label):
+def check_gate(chk, prog, eff, L, label, rule="C19.gate"):
     f = prog.fn("_cbor_stack_push")
     where = "%s:%d" % (f.file, f.line)
     size_off = prog.field_offset("_cbor_stack", "size")
@@ -38,7 +38,7 @@ def check_gate(chk, prog, eff, L, label):
             else:
                 refuse_limit.append(("range", (st.lo.get(S, 0), st.hi.get(S, (1 << 64) - 1))))
             ok = pa.ret == ("c", 0) and not [e for e in pa.events if e.kind == "store"]
-            chk.ob("C19.gate", "%s: refusal returns NULL and changes nothing" % label, ok, where, fn=f.name, key="refuse-clean:" + label)
+            chk.ob(rule, "%s: refusal returns NULL and changes nothing" % label, ok, where, fn=f.name, key="refuse-clean:" + label)
         else:
             proceed.append((pa, S))
     # refusal set must contain L and no value below L
@@ -51,9 +51,9 @@ def check_gate(chk, prog, eff, L, label):
         return x[0] <= v <= x[1]
     has_L = any(contains(r, L) for r in refuse_limit)
     below = [r for r in refuse_limit if (r[0] == "all") or (r[0] == "eq" and r[1] < L) or (r[0] == "range" and r[1][0] < L)]
-    chk.ob("C19.gate", "%s: push refuses when the stack already holds L=%d frames" % (label, L), has_L, where, fn=f.name,
+    chk.ob(rule, "%s: push refuses when the stack already holds L=%d frames" % (label, L), has_L, where, fn=f.name,
            key="gate-at-L:" + label, detail="" if has_L else "no refusal path covers size == %d (refusal conditions: %s)" % (L, refuse_limit))
-    chk.ob("C19.gate", "%s: push never refuses below L=%d" % (label, L), not below, where, fn=f.name, key="gate-below-L:" + label,
+    chk.ob(rule, "%s: push never refuses below L=%d" % (label, L), not below, where, fn=f.name, key="gate-below-L:" + label,
            detail="" if not below else "refuses for sizes %s although the limit is %d" % (below, L))
     # proceeding paths with size == L must not exist
     for pa, S in proceed:
@@ -66,14 +66,14 @@ def check_gate(chk, prog, eff, L, label):
                 can_be_L = False
             elif not (st.lo.get(S, 0) <= L <= st.hi.get(S, (1 << 64) - 1)):
                 can_be_L = False
-        chk.ob("C19.gate", "%s: no allocation path with size == L" % label, not can_be_L, where, fn=f.name, key="proceed:" + label,
+        chk.ob(rule, "%s: no allocation path with size == L" % label, not can_be_L, where, fn=f.name, key="proceed:" + label,
                detail="" if not can_be_L else "a frame can be pushed when the stack already holds %d" % L)
         if pa.ret != ("c", 0):
             stores = {P.ptr_key(e.args[0]): e.args[1] for e in pa.events if e.kind == "store"}
             new = pa.ret
             oksz = stores.get((STACK, size_off)) in (("op", "add", "i64", ("c", 1), S), ("op", "add", "i64", S, ("c", 1)))
             oktop = stores.get((STACK, top_off)) == new
-            chk.ob("C19.gate", "%s: success links the frame and counts it (size + 1)" % label, oksz and oktop, where, fn=f.name,
+            chk.ob(rule, "%s: success links the frame and counts it (size + 1)" % label, oksz and oktop, where, fn=f.name,
                    key="link:" + label, detail="" if oksz and oktop else "size'=%r top'=%r" % (stores.get((STACK, size_off)), stores.get((STACK, top_off))))
     return len(ps)
 
